@@ -121,6 +121,52 @@ func init() {
 			files[p] = f
 			order = append(order, p)
 		}
+		// symbolic links inside the tree (one run in three): to a regular file (read like the file, under the link's name), to a
+		// directory (-R hands it out as an entry that is not a directory: a read error) or to nothing (an open error). The
+		// regular files next to them are still read exactly once each.
+		if t.WBool(1, 3) {
+			for n := 1 + t.W(2); n > 0; n-- {
+				d := c06Dirs[t.W(len(c06Dirs))]
+				if d != "" {
+					if fi, err := os.Stat(d); err != nil || !fi.IsDir() {
+						d = ""
+					}
+				}
+				link := filepath.Join(d, []string{"ln-a", "b0-link", "m.lnk"}[t.W(3)])
+				if _, err := os.Lstat(link); err == nil {
+					continue
+				}
+				switch t.W(3) {
+				case 0:
+					if len(order) == 0 {
+						continue
+					}
+					target := order[t.W(len(order))]
+					abs, _ := filepath.Abs(target)
+					if err := os.Symlink(abs, link); err != nil {
+						panic(err)
+					}
+					cp := *files[target]
+					cp.Path = link
+					files[link] = &cp
+					rc.Probes["symlink-to-file"]++
+				case 1:
+					abs, _ := filepath.Abs(c06Dirs[1+t.W(len(c06Dirs)-1)])
+					if fi, err := os.Stat(abs); err != nil || !fi.IsDir() {
+						continue
+					}
+					if err := os.Symlink(abs, link); err != nil {
+						panic(err)
+					}
+					rc.Probes["symlink-to-directory"]++
+				default:
+					if err := os.Symlink("nowhere-at-all", link); err != nil {
+						panic(err)
+					}
+					rc.Probes["symlink-dangling"]++
+				}
+			}
+		}
 		sort.Strings(order)
 		// ---- the command line ----
 		gunzip := t.WBool(1, 2)
@@ -167,12 +213,18 @@ func init() {
 		}
 		// ---- reference expansion ----
 		var mentions []string
+		walkLinks := map[string]int{} // symbolic links that a -R walk comes across, with the number of times
 		pathErr := 0
 		if !useStdin {
 			for _, a := range args {
 				if recursive {
 					if fi, err := os.Stat(a); err == nil && fi.IsDir() {
-						mentions = append(mentions, c06Walk(a)...)
+						for _, m := range c06Walk(a) {
+							mentions = append(mentions, m)
+							if li, err := os.Lstat(m); err == nil && li.Mode()&os.ModeSymlink != 0 {
+								walkLinks[m]++
+							}
+						}
 						continue
 					}
 				}
@@ -297,6 +349,32 @@ func init() {
 		rc.Absorb(s)
 		if !rc.StdEnd(s, "termination") {
 			return
+		}
+		// the property speaks of the regular files below a -R directory: a walk that hands symbolic links out (as the
+		// pinned tree does) is held to the expectations above, one that leaves them alone is just as good
+		if len(walkLinks) > 0 {
+			opened := map[string]int{}
+			for _, ev := range s.FS.Log {
+				if ev.Op == "open" || ev.Op == "open-fail" {
+					opened[ev.Path]++
+				}
+			}
+			for p, n := range walkLinks {
+				e := exp[p]
+				if e == nil || opened[p] != e.Mentions-n {
+					continue
+				}
+				rc.Probes["walk-left-symlink-alone"]++
+				if e.Mentions -= n; e.Mentions == 0 {
+					delete(exp, p)
+					for i, q := range expOrder {
+						if q == p {
+							expOrder = append(expOrder[:i:i], expOrder[i+1:]...)
+							break
+						}
+					}
+				}
+			}
 		}
 		// ---- stdout ----
 		got := map[string][][2]string{}
